@@ -7,7 +7,7 @@
 (*     <<"ROWBAD", property, clause, chunk, row index>>.                    *)
 (* One initial state per chunk, so that the workers judge in parallel.      *)
 (***************************************************************************)
-EXTENDS ShortMsg, TLC, Json, IOUtils, Sequences, FiniteSets
+EXTENDS ShortMsg, MidiInts, TLC, Json, IOUtils, FiniteSets
 
 CONSTANTS K,      \* number of chunk files
           Table   \* which table
@@ -27,10 +27,18 @@ ShortViol(r) ==
         valid == ValidStatus(s)
         oks == (IF r[4] = B2I(valid) /\ r[5] = B2I(valid) /\ r[6] = B2I(valid) /\ r[7] = B2I(valid)
                 THEN {} ELSE {<<"C01", "from_bytes-accepts-iff-status-valid">>})
-    IN IF ~valid \/ Len(r) <= 9
+        panicked == valid /\ (\E j \in 4..7 : r[j] = -2)
+    IN IF panicked
+       THEN {<<"C01", "from_bytes-panics">>, <<"C02", "structured-not-constructible">>,
+             <<"C03", "structured-not-constructible">>, <<"C18", "panic">>}
+       ELSE IF ~valid \/ Len(r) <= 9
        THEN oks \cup (IF Len(r) = 8 /\ r[8] = 0 THEN {} ELSE
                       {<<"C18", IF Len(r) = 9 THEN "panic-constructing-structured" ELSE "alloc">>})
-                \cup (IF valid /\ Len(r) <= 9 /\ oks = {} THEN {<<"C01", "structured-not-constructible">>} ELSE {})
+                \* converting a valid message to StructuredShortMessage panicked: the byte round trip (C01), the
+                \* accessors built on to_structured (C02) and representation independence (C03) all fail
+                \cup (IF valid /\ Len(r) <= 9 /\ oks = {}
+                      THEN {<<"C01", "structured-not-constructible">>, <<"C02", "structured-not-constructible">>,
+                            <<"C03", "structured-not-constructible">>} ELSE {})
        ELSE
        LET vecR == Sub(r, 9, 26)   vecS == Sub(r, 35, 26)   flags == Sub(r, 61, 12)
            back == Sub(r, 73, 3)   rt2 == Sub(r, 76, 3)     into == Sub(r, 79, 3)
@@ -112,7 +120,52 @@ TypesViol(r) ==
             ELSE {<<IF i >= 39 THEN "C02" ELSE "C16", "controller-constant-" \o ToString(r[2])>>})
            \cup (IF i \in 17..32 /\ r[3] # ControllerTable[i - 16] + 32 THEN {<<"C16", "lsb-constant">>} ELSE {})
 
+(******************************** table `ints` *****************************)
+(* r[1] kind, r[2] build configuration (0 = std, 1 = without std), r[3] T    *)
+Both(clause) == {<<"C04", clause>>, <<"C05", clause>>}
+IntsViol(r) ==
+    LET T == r[3] IN
+    CASE r[1] \in {0, 2} ->          \* TryFrom: [kind,cfg,T,S,cls,v,ok,res,al]
+           LET want == TryOk(T, r[5], r[6]) IN
+           (IF r[7] = B2I(want) THEN {} ELSE Both("try_from-accepts-iff-in-range"))
+           \cup (IF r[7] = 1 /\ ~InRange(T, r[8]) THEN {<<"C04", "out-of-range-value">>} ELSE {})
+           \cup (IF r[7] = 1 /\ want /\ r[8] # r[6] THEN {<<"C05", "try_from-value">>} ELSE {})
+           \cup (IF r[9] = 0 /\ r[7] # -2 THEN {} ELSE {<<"C18", "ints">>})
+      [] r[1] \in {1, 3} ->          \* From: [kind,cfg,T,S,cls,v,res,al]
+           (IF InRange(T, r[7]) THEN {} ELSE {<<"C04", "out-of-range-value">>})
+           \cup (IF r[5] = 0 /\ r[7] = r[6] THEN {} ELSE {<<"C05", "from-value">>})
+           \cup (IF r[8] = 0 /\ r[7] # -2 THEN {} ELSE {<<"C18", "ints">>})
+      [] r[1] = 4 ->                 \* into primitive: [4,cfg,T,P,v,cls,res,al]
+           (IF r[6] = 0 /\ r[7] = r[5] THEN {} ELSE {<<"C05", "into-primitive-value">>})
+           \cup (IF r[8] = 0 /\ r[7] # -2 THEN {} ELSE {<<"C18", "ints">>})
+      [] r[1] = 5 ->                 \* new: [5,cfg,T,v,pan,res,al]
+           (IF r[5] = B2I(~InRange(T, r[4])) THEN {}
+            ELSE {<<"C04", IF r[2] = 0 THEN "new-panics-iff-out-of-range" ELSE "new-panics-iff-out-of-range-without-std">>}
+                 \cup (IF InRange(T, r[4]) THEN {<<"C18", "new-panics-on-valid-input">>} ELSE {}))
+           \cup (IF r[5] = 0 /\ ~InRange(T, r[6]) THEN {<<"C04", "out-of-range-value">>} ELSE {})
+           \cup (IF r[5] = 0 /\ InRange(T, r[4]) /\ r[6] # r[4] THEN {<<"C05", "new-value">>} ELSE {})
+           \cup (IF r[5] = 1 \/ r[7] = 0 THEN {} ELSE {<<"C18", "ints">>})
+      [] r[1] = 6 ->                 \* parse: [6,cfg,T,ok,res,al,n,c1..cn]
+           LET cs == SubSeq(r, 8, 7 + r[7])  want == ParseOk(T, cs) IN
+           (IF r[4] = B2I(want) THEN {} ELSE Both("parse-accepts-iff-numeral-in-range"))
+           \cup (IF r[4] = 1 /\ ~InRange(T, r[5]) THEN {<<"C04", "out-of-range-value">>} ELSE {})
+           \cup (IF r[4] = 1 /\ want /\ r[5] # NumeralValue(cs) THEN {<<"C05", "parse-value">>} ELSE {})
+           \cup (IF r[6] = 0 /\ r[4] # -2 THEN {} ELSE {<<"C18", "ints">>})
+      [] r[1] = 7 ->                 \* display: [7,cfg,T,v,backok,backval,al,n,c1..cn]
+           (IF SubSeq(r, 9, 8 + r[8]) = DigitsOf(r[4]) THEN {} ELSE {<<"C05", "display">>})
+           \cup (IF r[5] = 1 /\ r[6] = r[4] THEN {} ELSE {<<"C05", "display-then-parse">>})
+           \cup (IF r[7] = 0 THEN {} ELSE {<<"C18", "ints">>})
+      [] r[1] = 8 ->                 \* ord: [8,cfg,T,a,b,lt,le,eq,ne,cmp,pcmp,max,min]
+           LET a == r[4]  b == r[5]  c == IF a < b THEN 0 ELSE IF a = b THEN 1 ELSE 2 IN
+           (IF /\ r[6] = B2I(a < b) /\ r[7] = B2I(a <= b) /\ r[8] = B2I(a = b) /\ r[9] = B2I(a # b)
+               /\ r[10] = c /\ r[11] = c
+               /\ r[12] = (IF a >= b THEN a ELSE b) /\ r[13] = (IF a <= b THEN a ELSE b)
+            THEN {} ELSE {<<"C05", "ordering">>})
+      [] r[1] = 9 ->                 \* consts: [9,cfg,T,MIN,MAX,default]
+           (IF r[4] = 0 /\ r[5] = MaxOf(T) /\ r[6] = 0 THEN {} ELSE Both("min-max-default"))
+
 RowViol(r) == CASE Table = "short" -> ShortViol(r)
+                [] Table = "ints" -> IntsViol(r)
                 [] Table = "structured" -> StructViol(r)
                 [] Table = "types" -> TypesViol(r)
 
